@@ -2,6 +2,7 @@ package projgen
 
 import (
 	"fmt"
+	"os"
 	"strings"
 )
 
@@ -86,6 +87,13 @@ func Generate(seed uint64, profile string) *Project {
 	}
 	if len(p.Structs) == 0 {
 		g.newStruct(0)
+	}
+	if r.Chance(1, 2) {
+		// a custom error type (a struct embedding error) some methods return instead of error; gleece only
+		// resolves it when it is declared in the controller's own package
+		pkg := Pick(r, g.ctlPkgs)
+		p.Structs = append(p.Structs, Struct{Name: "ApiErr", Pkg: pkg, File: g.typeFile(pkg), IsError: true,
+			Fields: []Field{{GoName: "Message", JSON: "message", Type: TypeRef{Kind: "prim", Prim: "string"}}, {GoName: "Code", JSON: "code", Type: TypeRef{Kind: "prim", Prim: "int"}}}})
 	}
 	// same-named structs in two packages (accepted by gleece; C13 workload)
 	if profile == "order" && len(g.allPkgs()) >= 2 && r.Chance(1, 3) {
@@ -504,7 +512,7 @@ func (g *genState) method(c *Controller, idx int, file string) Method {
 	for i := 0; i < nSeg; i++ {
 		if r.Chance(1, 3) {
 			pn := Pick(r, paramNames)
-			if g.profile == "router" && !r.Chance(1, 30) {
+			if g.profile == "router" && !r.Chance(wildcardFreedom(), 30) {
 				// one wildcard name per position+prefix: gin refuses to register sibling templates whose
 				// wildcard names differ (a framework restriction, kept rare on purpose)
 				pn = paramNames[hashStr(7, c.Route+"/"+strings.Join(segs, "/"))%uint64(len(paramNames))]
@@ -649,7 +657,18 @@ func (g *genState) method(c *Controller, idx int, file string) Method {
 	Shuffle(r, m.Params)
 
 	// return shape
+	var errStruct *Struct
+	for si := range g.p.Structs {
+		st := &g.p.Structs[si]
+		if st.IsError && st.Pkg == c.Pkg {
+			errStruct = st
+		}
+	}
 	switch k := r.Intn(10); {
+	case k < 2 && errStruct != nil:
+		// sole custom-error result, by value or by pointer
+		m.Ret = Pick(r, []string{"customerr", "customerrptr"})
+		m.RetType = TypeRef{Kind: "struct", Pkg: errStruct.Pkg, Name: errStruct.Name}
 	case k < 3:
 		m.Ret = "error"
 	default:
@@ -780,4 +799,15 @@ func goIdent(s string) string {
 		}
 	}
 	return b.String()
+}
+
+// wildcardFreedom: in how many of 30 cases a path-parameter name is drawn freely instead of being
+// fixed per position+prefix (VERIF_PROJGEN_WILD overrides the default of 1 for harness experiments).
+func wildcardFreedom() int {
+	if v := os.Getenv("VERIF_PROJGEN_WILD"); v != "" {
+		n := 0
+		fmt.Sscan(v, &n)
+		return n
+	}
+	return 1
 }
